@@ -6,8 +6,8 @@
   performs with SHA-256 / HMAC / AES-CTR / DSA / modular exponentiation succeeds exactly when the
   identities that went into both sides agree (Dolev–Yao style: MACs, hashes and signatures are
   unforgeable, ZK proofs of honest parties verify).  Everything else is the code as written:
-  authState dispatch (including `c.authState = authStateAwaitingRevealSig` being assigned *before*
-  the DH-commit parse in the `authStateNone` case), `reset`, key ids (uint32), the four key slots,
+  authState dispatch (fixed code: in the `authStateNone` case `c.authState` is advanced only after the
+  DH commit parsed), `reset`, key ids (uint32), the four key slots,
   counters, TLV dispatch, SMP state machine, the in-place decryption of `c.gxBytes`.
 
   A nil `*big.Int` reaching `appendMPI` / `Exp` is the explicit outcome `R.panic`.
@@ -420,8 +420,8 @@ def Party.recv (p : Party) : In → R (Party × Out)
   | .commit ok x dg =>
     match p.auth with
     | .none =>
-      let p := { p with auth := .awReveal }
       if !ok then .ok (p, errOut) else
+      let p := { p with auth := .awReveal }
       let (p, m) := ((p.procCommit x dg).reset).genKey
       .ok (p, { send := [m] })
     | .awKey =>
